@@ -11,13 +11,13 @@ open TH
 /-- fewer than three request-line fields ⇒ rejected. -/
 theorem request_line_needs_three_fields (line : Bytes)
     (h : (splitOn 32 (trim line)).length < 3) : parseRequestLine line = none := by
-  sorry
+  exact parseRequestLine_short line h
 
 /-- a version token outside the recognised table ⇒ rejected (lower case, HTTP/1.2, garbage …). -/
 theorem unknown_version_rejected (m p v : Bytes) (rest : List Bytes) (line : Bytes)
     (hs : splitOn 32 (trim line) = m :: p :: v :: rest)
     (hv : ∀ e ∈ Extracted.versionTable, e.1 ≠ v) : parseRequestLine line = none := by
-  sorry
+  exact parseRequestLine_unknown_version m p v rest line hs hv
 
 /-- the recognised table is exactly the five tokens of the statement. -/
 theorem version_table :
@@ -27,7 +27,7 @@ theorem version_table :
 /-- a header line without a colon ⇒ rejected. -/
 theorem header_without_colon_rejected (line : Bytes) (h : line.contains 58 = false) :
     parseHeaderLine line = none := by
-  sorry
+  exact parseHeaderLine_no_colon line h
 
 /-- Malformed ASCII head (bad request line) at any point of a pipeline: not delivered, the client
     gets a 400 after everything produced so far, the connection closes, nothing after it is
@@ -37,27 +37,27 @@ theorem bad_request_line_outcome (fuel idx : Nat) (s : St) (bs : Bytes) (fin : E
     let t := runLoop (fuel + 1) idx s bs fin script
     t.delivered = s.delivered ∧ t.statuses = s.statuses ++ [400] ∧ t.ending = .closed ∧
       t.out = s.out ++ printError 400 ⟨1, 1⟩ false ∧ t.flushed = t.out.length := by
-  sorry
+  simp [runLoop, h, St.emit, St.finish]
 
 theorem bad_header_outcome (fuel idx : Nat) (s : St) (bs : Bytes) (fin : EndState) (script : Script) (v : Version)
     (h : readHead bs fin = .error (.wrongHeader v)) :
     let t := runLoop (fuel + 1) idx s bs fin script
     t.delivered = s.delivered ∧ t.statuses = s.statuses ++ [400] ∧ t.ending = .closed ∧
       t.out = s.out ++ printError 400 v false ∧ t.flushed = t.out.length := by
-  sorry
+  simp [runLoop, h, St.emit, St.finish]
 
 /-- non-ASCII bytes in the head: plain close, nothing delivered, nothing sent. -/
 theorem non_ascii_outcome (fuel idx : Nat) (s : St) (bs : Bytes) (fin : EndState) (script : Script)
     (h : readHead bs fin = .error .notAscii) :
     let t := runLoop (fuel + 1) idx s bs fin script
     t.delivered = s.delivered ∧ t.statuses = s.statuses ∧ t.ending = .closed ∧ t.out = s.out := by
-  sorry
+  simp [runLoop, h, St.finish]
 
 /-- a line containing a byte ≥ 0x80 is never parsed. -/
 theorem non_ascii_line (l rest : Bytes) (fin : EndState)
     (hl : ∀ b ∈ l, b ≠ 10) (hn : ∃ b ∈ l, 128 ≤ b) :
     readLine (l ++ 13 :: 10 :: rest) fin = .notAscii rest := by
-  sorry
+  exact readLine_notAscii l rest fin hl hn
 
 /-- unsupported Expect value (anything but 100-continue, any letter case): 417 then close, not
     delivered — provided the Content-Length headers are well-formed (else 400, see C16). -/
@@ -68,14 +68,14 @@ theorem unsupported_expect_outcome (fuel idx : Nat) (s : St) (bs : Bytes) (fin :
     let t := runLoop (fuel + 1) idx s bs fin script
     t.delivered = s.delivered ∧ t.statuses = s.statuses ++ [417] ∧ t.ending = .closed ∧
       t.out = s.out ++ printError 417 h.version true ∧ t.flushed = t.out.length := by
-  sorry
+  simp [runLoop, hh, hf, St.emit, St.finish]
 
 theorem expect_classification (hs : List Header) (e : Header)
     (hcl : ∀ h ∈ hs, h.is b!"Content-Length" = true → (strictContentLength h.value).isSome = true)
     (he : findHeader hs b!"Expect" = some e)
     (hv : eqIgnoreCase e.value b!"100-continue" = false) :
     framingOf hs = .error .expectationFailed := by
-  sorry
+  exact framingOf_expectation_failed hs e hcl he hv
 
 /-- HTTP version above 1.1: not delivered; the 505 is written and flushed at once (it does not
     wait for anything), its body is skipped, and the connection goes on with the next request. -/
@@ -90,7 +90,14 @@ theorem version_too_high_outcome (fuel idx : Nat) (s : St) (bs : Bytes) (fin : E
       runLoop fuel idx (s.emit 505 (some print505) true) rest2 fin script ∧
     (s.emit 505 (some print505) true).delivered = s.delivered ∧
     (s.emit 505 (some print505) true).flushed = (s.emit 505 (some print505) true).out.length := by
-  sorry
+  refine ⟨?_, rfl, rfl⟩
+  rw [runLoop, hh]
+  simp only [hf]
+  split
+  · rename_i n hk
+    have hn : ¬ (rest.length < n) := by have := hshort n hk; omega
+    simp only [hn, decide_false, hver, hd, if_true, Bool.false_eq_true, if_false]
+  · simp only [hver, hd, if_true, Bool.false_eq_true, if_false]
 
 /-- "HTTP version above 1.1" is exactly: HTTP/2.0 and HTTP/3.0 among the recognised tokens. -/
 theorem too_high_versions :
@@ -102,7 +109,7 @@ theorem too_high_versions :
     heads included), the bytes already produced stay in front, in order. -/
 theorem earlier_responses_first (fuel idx : Nat) (s : St) (bs : Bytes) (fin : EndState) (script : Script) :
     ∃ o, (runLoop fuel idx s bs fin script).out = s.out ++ o := by
-  sorry
+  exact runLoop_out_prefix fuel idx s bs fin script
 
 example : (Conn.run b!"GET /a HTTP/1.1\r\n\r\nGET /b HTTP/2.0\r\n\r\nGET /c HTTP/1.1\r\n\r\nBAD\r\n\r\nGET /d HTTP/1.1\r\n\r\n" .eof
     (fun _ => ⟨0, 0, 1, .drop⟩)).statuses = [500, 505, 500, 400] := by decide
